@@ -67,8 +67,8 @@ def legs(quick):
             design.append(dict(D, module="F_Maglev", cfg=cfg, coverage=False, thorough_timeout=1500))
     out = [dict(BASE, design=design,
                 gen={"module": "Gen_Maglev", "cfg": "Gen_5.cfg", "thorough_cfg": "Gen_7.cfg", "workers": 4,
-                     "max": 1200, "thorough_max": 40000, "thorough_timeout": 1200},
-                n_random=(150, 3000)),
+                     "max": 800, "thorough_max": 40000, "thorough_timeout": 1200},
+                n_random=(100, 3000)),
            dict(BASE, design=[], gen=None, n_random=(0, 0),
                 driver={"cmd": "maglev", "env": {"VERIF_MAGLEV_SIZES": "60" if quick else "0"}})]
     if not quick:
@@ -84,7 +84,8 @@ def run(ctx):
         pipeline.standard_check(ctx, P)
         if ctx.violations:
             break
-        drift(ctx, i + 1)
+        if i == 0 or not ctx.quick:
+            drift(ctx, i + 1)
         if ctx.replay:
             break
 
